@@ -16,6 +16,9 @@ from __future__ import annotations
 
 import copy
 import itertools
+import json
+import os
+import select
 import time
 from typing import Any, Dict, Iterator, List, Optional, Tuple
 
@@ -117,13 +120,53 @@ def _mk_case(tasks: List[Dict[str, Any]], budgets: List[int], clock0: Optional[i
     return case
 
 
+WATCHDOG_S = 120.0
+
+
+def _timed_call(req: Dict[str, Any]) -> Dict[str, Any]:
+    """rsclient.Rust.call with a watchdog: the code under test contains unbounded loops
+    (AsyncRuntimeRunner::run_instructions spins until its CPU task reports completion), so a defect there can
+    hang the harness.  No answer within WATCHDOG_S is an infrastructure-level failure (exit 2), never a verdict."""
+    cli = rsclient.shared()
+    proc = cli.proc
+    data = (json.dumps(req, separators=(",", ":")) + "\n").encode()
+    try:
+        proc.stdin.write(data)
+        proc.stdin.flush()
+    except (BrokenPipeError, OSError) as exc:
+        raise HarnessError(f"rust harness pipe failed: {exc!r}")
+    fd = proc.stdout.fileno()
+    buf = bytearray()
+    deadline = time.time() + WATCHDOG_S
+    while not buf.endswith(b"\n"):
+        left = deadline - time.time()
+        if left <= 0:
+            proc.kill()
+            raise _Hang(f"rust harness gave no answer within {WATCHDOG_S:.0f} s (c18 request with "
+                        f"{len(req.get('cases', []))} cases): the code under test probably does not terminate")
+        r, _, _ = select.select([fd], [], [], min(left, 5.0))
+        if not r:
+            continue
+        chunk = os.read(fd, 1 << 16)
+        if not chunk:
+            raise HarnessError(f"rust harness died (rc={proc.poll()}) during a c18 request")
+        buf += chunk
+    return json.loads(bytes(buf))
+
+
+class _Hang(HarnessError):
+    pass
+
+
 def _call(req: Dict[str, Any]) -> Dict[str, Any]:
     """One request; a dead harness process (the sandbox is shared: OOM victim, stray pkill) is restarted once.  A
-    request that kills the harness deterministically still ends as HarnessError (exit 2)."""
+    request that kills the harness deterministically still ends as HarnessError (exit 2); a hang is not retried."""
     try:
-        return rsclient.shared().call(req)
+        return _timed_call(req)
+    except _Hang:
+        raise
     except HarnessError:
-        return rsclient.shared().call(req)
+        return _timed_call(req)
 
 
 def _rust_sched(cases: List[Dict[str, Any]]) -> List[Dict[str, Any]]:
@@ -276,11 +319,19 @@ def _cpu_shard(task: Tuple[int, int, int, int]) -> Report:
 
 def _dispatch(task: Tuple[Any, ...]) -> Report:
     kind = task[0]
-    if kind == "enum":
-        return _enum_shard(task[1:])
-    if kind == "hyp":
-        return _hyp_shard(task[1:])
-    return _cpu_shard(task[1:])
+    try:
+        if kind == "enum":
+            return _enum_shard(task[1:])
+        if kind == "hyp":
+            return _hyp_shard(task[1:])
+        return _cpu_shard(task[1:])
+    except _Hang as exc:
+        # The shard's partial results are dropped; run() turns this into exit 2 unless another shard produced a
+        # genuine (unlisted) violation, in which case that violation is the more useful report.
+        rep = Report()
+        rep.extra["hangs"] = 1
+        rep.inconclusive.append(f"{kind} shard {task[1]}: {exc}")
+        return rep
 
 
 def run(ctx: Ctx) -> Report:
@@ -298,6 +349,11 @@ def run(ctx: Ctx) -> Report:
         tasks.append(("enum", i, n_enum, ctx.tier))
     reports = ctx.pmap(_dispatch, tasks)
     rep = ctx.merge_reports(reports)
+    if rep.extra.get("hangs"):
+        from .. import findings as F
+        entries = F.load_findings(PROPERTY)
+        if not any(F.match_open(entries, v) is None for v in rep.violations):
+            raise HarnessError("; ".join(rep.inconclusive[:2]))
     rep.rule = RULE
     rep.exhaustive = True  # the enumerated scheduler sub-space (see rule) was completed; Hypothesis/CPU parts are samples
     rep.extra["exhaustive_scope"] = "enumerated scheduler families only (labels enum:*); hyp and cpu cases are generated samples"
